@@ -96,6 +96,9 @@ def scan(rd: cst.Reading) -> list[dict]:
             if a.type != "comment" and b.type != "comment":
                 if gap not in (b"", b" "):
                     hit("multi-space", a, b, a.end)
+            elif gap not in (b"", b" "):
+                # a comment sharing the line with code: padding around it is collapsed too
+                hit("multi-space-at-comment", a, b, a.end)
             if b.type in (";", ":") and b.parent != "interpolation" and gap != b"" \
                     and a.type != "comment":
                 hit("detached-" + ("semicolon" if b.type == ";" else "colon"), a, b, a.end)
@@ -108,7 +111,11 @@ def scan(rd: cst.Reading) -> list[dict]:
                 # line, or the opener's line starts with the binding that contains it
                 op_line_indent = line_indent(op.row0)
                 judged = op.col0 == op_line_indent
-                if not judged:
+                if not judged and any(o.row0 == op.row0 for o in opener_stack):
+                    # another container opened earlier on the same line is still open: which
+                    # structure the closer belongs to is not unambiguous, not judged
+                    pass
+                elif not judged:
                     n = op.node
                     while n is not None:
                         if n.type in ("binding", "inherit", "inherit_from") and \
